@@ -12,7 +12,7 @@ EXPLANATION = (
     "check and the other recursive functions over Tag cover every nested variant, so no infinite type is bound. (R3) "
     "occurs() dominates every union(). Panics justified by type checking are C01; recursion depth, hangs outside the "
     "unifier and process behaviour are not decided.")
-EXPLANATION += ' Further clauses: the domain of R1 includes the code that turns locators from program text or configuration into paths and files; (R4) MEMO-TOTAL, (R5) STATUS-CONV, (R6) CHECK-TOTAL and (R7) ARGS-AGREE (shared C01), (R8) GRAPH-COMPLETE (shared C08/C09: an unseen cycle overflows the stack), (R9) EMIT-TOTAL - variant sets at every call of an emitter function with unreachable!() arms. (R10) RECURSION-SAFE (shared C09.R3/R5). (R11) JOIN-AGREE / LOCATORS (shared C10.R5, C10.R7).'
+EXPLANATION += ' Further clauses: the domain of R1 includes the code that turns locators from program text or configuration into paths and files; (R4) MEMO-TOTAL, (R5) STATUS-CONV, (R6) CHECK-TOTAL and (R7) ARGS-AGREE (shared C01), (R8) GRAPH-COMPLETE (shared C08/C09: an unseen cycle overflows the stack), (R9) EMIT-TOTAL - variant sets at every call of an emitter function with unreachable!() arms. (R10) RECURSION-SAFE (shared C09.R3/R5). (R11) JOIN-AGREE / LOCATORS (shared C10.R5, C10.R7). (R12) STATUS-LEXEME - every text the status-range token matches has an arm in parse_http_status.'
 ASSUMPTIONS = ["logos yields spans inside the input on character boundaries", "LSP clients send ranges with start <= end"]
 TECHNIQUE = "static analysis: panic-sink census over the call graph with a per-symbol allow-list; ADT/HIR recursion coverage; MIR dominance"
 
@@ -393,6 +393,8 @@ def r5_status_conv(c, facts, rule='C04.R5'):
 
 
 def run(c, facts):
+    import lexrules
+    c.run(lambda c: lexrules.status_digits(c, facts, 'C04.R12'))
     import c10 as _c10
     R11 = c.rule('C04.R11', 'JOIN-AGREE / LOCATORS: loader and resolver derive the same locator for an import and agree with the file system on whether it exists; otherwise a text with an import is answered with a panic ("unknown module", the playground assert) instead of a diagnostic (shared with C10.R5, C10.R7)')
     c.shared(R11, _c10.r5_join_agree, 'C10.R5', facts)
